@@ -290,13 +290,29 @@ def uniaxial_points(vk):
     branch quantities, parameters of the docstring example): every abs / maximum branch is decided by the VALUES the code
     computes, not by declared sign patterns -- so a change of a quantity the code branches on is refuted here (in
     `uniaxial` it makes the declared patterns inapplicable: undecided)"""
-    if not vk.sym:
-        return
     from fractions import Fraction as _Fr
 
     M.mark_real(vk, TL.morph_uniaxial, alias="felupe.constitution.tensortrax.models.lagrange.morph_uniaxial")
     M.mark_real(vk, JL.morph_uniaxial, alias="felupe.constitution.jax.models.lagrange.morph_uniaxial")
     near = np.array([K.pattern_near(a) for a in range(ND)])
+    if not vk.sym:
+        # paired native run at the same states (float64, the two real functions on their own array types): the failing
+        # input of a refuted obligation is the state with the index the obligation names
+        import jax.numpy as jnp
+        import tensortrax as tr
+
+        fl = lambda arr: np.array([float(_Fr(float(x)).limit_denominator(1000)) for x in np.asarray(arr, dtype=float).ravel()])  # noqa: E731
+        lam = fl(near[:, 0])
+        sv = fl(np.concatenate([near[:, 1], near[:, 2], np.full(ND, 0.1), np.full(ND, 0.2)]))
+        p = list(fl(K.P_DOC))
+        un = lambda a: np.asarray(a.x if hasattr(a, "x") else a, dtype=float)  # noqa: E731
+        mt_, st_ = TL.morph_uniaxial(tr.Tensor(lam), sv, p=p, ε=0.01)
+        mj_, sj_ = JL.morph_uniaxial(jnp.asarray(lam), jnp.asarray(sv), p=p, ε=0.01)
+        vk.ensures_eq("at 21 rational states (all 8 sign patterns): morph_uniaxial_jax==morph_uniaxial_tensortrax", un(mj_), un(mt_))
+        vk.ensures_eq("at 21 rational states (all 8 sign patterns): state of morph_uniaxial_jax==morph_uniaxial_tensortrax", un(sj_), un(st_))
+        vk.ensures_eq("at 21 rational states: stored maximum == max(|λ² - 1/λ|, stored maximum)", un(st_)[:ND], np.maximum(np.abs(lam**2 - 1 / lam), sv[:ND]))
+        vk.ensures_eq("at 21 rational states: stored stretch == λ - 1", un(st_)[ND : 2 * ND], lam - 1)
+        return
     exact = lambda arr: np.array([LP.const(_Fr(float(x)).limit_denominator(1000)) for x in np.asarray(arr, dtype=float).ravel()], dtype=object)  # noqa: E731
     lam = exact(near[:, 0])
     sv = exact(np.concatenate([near[:, 1], near[:, 2], np.full(ND, 0.1), np.full(ND, 0.2)]))
